@@ -47,7 +47,8 @@ INT_WORDS = ["second", "minute", "hour", "day", "week", "month", "year"]
 INT_UNITS = [w + s for w in INT_WORDS for s in ("", "s")]
 WS_MID = ["", " ", "\t", "  ", " \t  ", " ", " 　", "\n", "\u0085", "  ", "\r\n", "\x0b\x0c"]
 WS_END = ["", " ", "\t", "  \t", " ", "\n"]
-JUNK_UNITS = ["k", "kbx", "bb", "kb1", "k b", "ki b", "kibb", "pb", "eb", "kbit", "bytes", "byte", "kilobytes",
+JUNK_UNITS = ["wee\u212a", "wee\u212as", "WEE\u212aS", "\u212ab", "\u212aib", "wee\u043a",   # KELVIN SIGN / Cyrillic ka for k
+              "k", "kbx", "bb", "kb1", "k b", "ki b", "kibb", "pb", "eb", "kbit", "bytes", "byte", "kilobytes",
               "Kb", "Kib", "kıb", "ｋｂ", "μb", "kb.", "kb,", "kb/s", ".kb", "kb kb",
               "sec", "s", "min", "h", "d", "w", "m", "y", "ms", "secondss", "second s", "dayſ", "hrs", "fortnight",
               "weeks.", "month(s)", "years ago", "mon th", "нay", "dаy", "-", "+", "_", "%", "e3", "E3kb",
